@@ -1,5 +1,28 @@
+"""C07: Lie-algebra structure.  (a) per-group strata events (numeric.run); (b) many groups in ONE process in seeded
+orders (harness/rec_mixed): generators / inner weights / hat / vee / bracket of each group, incl. R1, R2 and bundles with
+permuted element orders, must not depend on which other groups were used before (function-local static tables)."""
+import os, json
+import vlib
 from . import numeric
+
+def mixed(rep, tier, seed):
+    p, log = vlib.build("rec_mixed", "rec_mixed.cpp", flags=["-std=c++14"])
+    if p is None: raise vlib.BuildError({"rec_mixed": log})
+    wd = vlib.workdir("C07mixed")
+    lines = []
+    for k in range(4 if tier == "quick" else 24):
+        op = os.path.join(wd, "mixed_%d.ndjson" % k)
+        r = vlib.sh(["timeout", "300", p, op, str(seed * 100 + k)])
+        ls = open(op).read().splitlines() if os.path.exists(op) else []
+        if r.returncode != 0:
+            rep.violations.append(("rec_mixed aborted with %d: %s" % (r.returncode, r.stdout[-200:]), json.dumps({"e": "crash"})))
+            ls = [l for l in ls if l.endswith("}")]
+        lines += ls; rep.traces += 1
+    results, st = vlib.validate(lines, wd, module="AlgoTrace")
+    rep.states += st[0]; rep.transitions += st[1]
+    return results
+
 def run(tier, seed):
     return numeric.run("C07", tier, seed, lambda e, i: True,
-        "Generator(i) for every i in -2..DoF+2, hat/Vee/Bracket/inner/weightedNorm/InnerWeights on integer (exact) and real tangents; in addition (beyond the property) the vector-space operators of tangents, Jacobian*Tangent, pi2pi/toRad/toDeg and Random(); distinct = (event, group, scalar, stratum)",
-        module="AlgoTrace")
+        "Generator(i) for every i in -2..DoF+2, hat/Vee/Bracket/inner/weightedNorm/InnerWeights on integer (exact) and real tangents per group; the same for 21 group types (incl. R1, R2, bundles with permuted element orders) interleaved in one process in seeded orders; in addition (beyond the property) the vector-space operators of tangents, Jacobian*Tangent, pi2pi/toRad/toDeg and Random(); distinct = (event, group, scalar, stratum)",
+        module="AlgoTrace", extra_results=lambda rep: mixed(rep, tier, seed))
